@@ -79,7 +79,7 @@ type c09rec struct {
 	memoTrusted bool
 	lastEnc     string
 	hasLast     bool
-	class  string
+	class       string
 }
 
 func c09new(n int, class string) *c09rec {
